@@ -3768,3 +3768,15 @@ class RockRidgeContinuationBlock:
                 break
         else:
             raise pycdlibexception.PyCdlibInternalError('Could not find an entry for the RR CE entry in the CE block!')
+
+    def is_empty(self):
+        # type: () -> bool
+        """
+        Determine whether this Rock Ridge Continuation Block holds no entries.
+
+        Parameters:
+         None.
+        Returns:
+         True if there are no entries in this block, False otherwise.
+        """
+        return not self._entries
